@@ -76,6 +76,14 @@ Section G.
     let '(res, g, e) := sn in
     list_eqb same (get_res rule q s res) g && all2 ctrl_ok (ctrls_of rule s res) e.
 
+  (* probe traffic after the last operation: one request per resource, built so that a rule either
+     rejects it whatever the (empty) history or can not reject it; the request must be rejected iff
+     some enforced rule rejects it, by the first such rule in checking order *)
+  Variable blocks : rule -> bool.
+  Definition probe_ok (s : state rule) (p : Z * option Z) : bool :=
+    let '(res, who) := p in
+    opt_eqb Z.eqb (option_map tag (find blocks (enforced_rules rule s res))) who.
+
   Fixpoint check_run (s : state rule) (ops : list (op rule)) (obs : list obsT) : bool :=
     match ops, obs with
     | [], [] => true
@@ -86,7 +94,45 @@ Section G.
         && check_run s1 os bs
     | _, _ => false
     end.
+
+  Definition check_case (ops : list (op rule)) (obs : list obsT) (probes : list (Z * option Z)) : bool :=
+    check_run (init rule) ops obs
+    && forallb (probe_ok (fst (run rule valid resource equal stat_reusable supported deep_eq q (init rule) ops))) probes.
 End G.
+
+(* which rules reject the probe request of their module (harness/internal/rulesh: Blocks) *)
+Definition flow_blocks (r : frule) : bool :=
+  (f_thr r =? 0)%float && (f_tcs r =? 0) && (f_cb r =? 0) && (f_rel r =? 0).
+Definition iso_blocks (r : irule) : bool := i_thr r <? 5.          (* the probe is a batch of 5 *)
+Definition hot_blocks (r : hrule) : bool := h_thr r =? 0.
+(* the breaker opens on the completion of one failed request with response time 0 *)
+Definition brk_blocks (r : brule) : bool :=
+  (b_minreq r <=? 1)
+  && (if b_strategy r =? 2 then (b_thr r <? 2)%float
+      else if b_strategy r =? 1 then true
+      else if b_strategy r =? 0 then float64_equals (b_thr r) 0%float
+      else false).
+(* system: with no inbound traffic in any window, a rule on average RT / concurrency / inbound QPS
+   rejects iff 0 is not below its trigger count; load and CPU usage read -1 (collectors off) *)
+Definition sys_blocks (r : srule) : bool :=
+  ((s_metric r =? 1) || (s_metric r =? 2) || (s_metric r =? 3)) && negb (0 <? s_trigger r)%float.
+Definition sys_probe_ok (s : sys_state) (p : option (option Z)) : bool :=
+  match p with
+  | None => true                                                    (* no probe *)
+  | Some None => negb (existsb sys_blocks (sys_rules s))            (* admitted *)
+  | Some (Some t) => existsb (fun r => sys_blocks r && (s_tag r =? t)) (sys_rules s)   (* rejected by rule t (map order) *)
+  end.
+
+(* enum values and geometry the model hard-codes, as exported by the Go packages *)
+Definition model_consts : list Z :=
+  [0; 1; 2;      (* flow.Direct, WarmUp, MemoryAdaptive *)
+   0; 1;         (* flow.Reject, Throttling *)
+   0; 1;         (* flow.CurrentResource, AssociatedResource *)
+   0;            (* isolation.Concurrency *)
+   0; 1;         (* hotspot.Concurrency, QPS *)
+   0; 1;         (* hotspot.Reject, Throttling *)
+   0; 1; 2;      (* circuitbreaker.SlowRequestRatio, ErrorRatio, ErrorCount *)
+   0; 1; 2; 3; 4; 5  (* system.Load, AvgRT, Concurrency, InboundQPS, CpuUsage, MetricTypeSize *)].
 
 Definition sys_obsT := (res3 * list (Z * list srule))%type.   (* per metric type: ruleMap[mt] *)
 Fixpoint sys_check (s : sys_state) (ops : list (option (list (option srule)))) (obs : list sys_obsT) : bool :=
@@ -113,36 +159,40 @@ Fixpoint out_check (s : out_state) (ops : list out_op) (obs : list out_obsT) : b
   | _, _ => false
   end.
 
+Definition probesT := list (Z * option Z).   (* resource, tag of the rule that rejected the probe *)
+
 Inductive case :=
-| CFlow (id : Z) (total_mem g_interval g_samples m_interval : Z) (ops : list (op frule)) (obs : list (obsT frule))
-| CIso (id : Z) (ops : list (op irule)) (obs : list (obsT irule))
-| CHot (id : Z) (ops : list (op hrule)) (obs : list (obsT hrule))
-| CBrk (id : Z) (ops : list (op brule)) (obs : list (obsT brule))
-| CSys (id : Z) (ops : list (option (list (option srule)))) (obs : list sys_obsT)
-| COut (id : Z) (ops : list out_op) (obs : list out_obsT).
+| CFlow (id : Z) (total_mem g_interval g_samples m_interval : Z) (ops : list (op frule)) (obs : list (obsT frule)) (probes : probesT)
+| CIso (id : Z) (ops : list (op irule)) (obs : list (obsT irule)) (probes : probesT)
+| CHot (id : Z) (ops : list (op hrule)) (obs : list (obsT hrule)) (probes : probesT)
+| CBrk (id : Z) (ops : list (op brule)) (obs : list (obsT brule)) (probes : probesT)
+| CSys (id : Z) (ops : list (option (list (option srule)))) (obs : list sys_obsT) (probe : option (option Z))
+| COut (id : Z) (ops : list out_op) (obs : list out_obsT)
+| CConsts (id : Z) (vals : list Z).
 
 Definition case_ok (c : case) : bool :=
   match c with
-  | CFlow _ tm gi gs mi ops obs =>
-      check_run frule (flow_valid tm) f_res flow_equal flow_stat_reusable flow_supported flow_deep_eq flow_quirks
-                frule_same f_tag (flow_own_stat gi gs mi) true (init frule) ops obs
-  | CIso _ ops obs =>
-      check_run irule iso_valid i_res iso_never iso_never iso_always iso_deep_eq iso_quirks
-                irule_same i_tag (fun _ => false) false (init irule) ops obs
-  | CHot _ ops obs =>
-      check_run hrule hot_valid h_res hot_equal hot_stat_reusable hot_supported hot_deep_eq hot_quirks
-                hrule_same h_tag (fun _ => true) true (init hrule) ops obs
-  | CBrk _ ops obs =>
-      check_run brule brk_valid b_res brk_equal brk_stat_reusable brk_supported brk_deep_eq brk_quirks
-                brule_same b_tag (fun _ => true) true (init brule) ops obs
-  | CSys _ ops obs => sys_check sys_init ops obs
+  | CFlow _ tm gi gs mi ops obs probes =>
+      check_case frule (flow_valid tm) f_res flow_equal flow_stat_reusable flow_supported flow_deep_eq flow_quirks
+                 frule_same f_tag (flow_own_stat gi gs mi) true flow_blocks ops obs probes
+  | CIso _ ops obs probes =>
+      check_case irule iso_valid i_res iso_never iso_never iso_always iso_deep_eq iso_quirks
+                 irule_same i_tag (fun _ => false) false iso_blocks ops obs probes
+  | CHot _ ops obs probes =>
+      check_case hrule hot_valid h_res hot_equal hot_stat_reusable hot_supported hot_deep_eq hot_quirks
+                 hrule_same h_tag (fun _ => true) true hot_blocks ops obs probes
+  | CBrk _ ops obs probes =>
+      check_case brule brk_valid b_res brk_equal brk_stat_reusable brk_supported brk_deep_eq brk_quirks
+                 brule_same b_tag (fun _ => true) true brk_blocks ops obs probes
+  | CSys _ ops obs probe => sys_check sys_init ops obs && sys_probe_ok (fst (sys_run sys_init ops)) probe
   | COut _ ops obs => out_check out_init ops obs
+  | CConsts _ vals => list_eqb Z.eqb vals model_consts
   end.
 
 Definition case_id (c : case) : Z :=
   match c with
-  | CFlow id _ _ _ _ _ _ => id | CIso id _ _ => id | CHot id _ _ => id | CBrk id _ _ => id
-  | CSys id _ _ => id | COut id _ _ => id
+  | CFlow id _ _ _ _ _ _ _ => id | CIso id _ _ _ => id | CHot id _ _ _ => id | CBrk id _ _ _ => id
+  | CSys id _ _ _ => id | COut id _ _ => id | CConsts id _ => id
   end.
 
 Definition mismatches (cs : list case) : list Z :=
